@@ -113,13 +113,16 @@ Definition uri_body (typ : N) (val : bytes) : str :=
 Definition comp_to_canonical_uri (c : bytes) : res str :=
   do tv <- comp_split c ;; let '(typ, val) := tv in Ok (uri_body typ val).
 
+(* the naming-convention shorthand (seg=, v=, ...) stands for a NonNegativeInteger: a value of 1, 2, 4 or 8 octets *)
+Definition nni_len_ok (n : nat) : bool := Nat.eqb n 1 || Nat.eqb n 2 || Nat.eqb n 4 || Nat.eqb n 8.
+
 Definition comp_to_str (c : bytes) : res str :=
   do tv <- comp_split c ;;
   let '(typ, val) := tv in
   if typ =? TYPE_IMPLICIT_SHA256 then Ok (s_sha256digest ++ 61 :: hex_print val)
   else if typ =? TYPE_PARAMETERS_SHA256 then Ok (s_params_sha256 ++ 61 :: hex_print val)
   else match alt_by_type alt_uri typ with
-       | Some k => Ok (k ++ 61 :: dec_print (be_to_N val))
+       | Some k => if nni_len_ok (length val) then Ok (k ++ 61 :: dec_print (be_to_N val)) else Ok (uri_body typ val)
        | None => Ok (uri_body typ val)
        end.
 
